@@ -14,6 +14,8 @@ pub fn dispatch(ctx: &Ctx) -> i32 {
         "C04" => contract::check(ctx, contract::Which::C04),
         "C05" => combine(ctx, contract::collect(ctx, contract::Which::C05), frag::collect(ctx, "C05")),
         "C10" => frag::check(ctx, "C10"),
+        "C13" => faults::check(ctx),
+        "C14" => reframe::check(ctx),
         "C11" => frag::check(ctx, "C11"),
         "C06" => contract::check(ctx, contract::Which::C06),
         p => {
@@ -28,6 +30,8 @@ pub fn replay(prop: &str, case: &serde_json::Value) -> i32 {
         Some("E1") => e1::replay(prop, case),
         Some("contract") => contract::replay(prop, case),
         Some("E5") => frag::replay(prop, case),
+        Some("E3") => faults::replay(case),
+        Some("E2-annexb") | Some("E2-annexb-mux") | Some("E2-adts") => reframe::replay(case),
         e => {
             eprintln!("unknown engine {e:?}");
             2
@@ -37,6 +41,8 @@ pub fn replay(prop: &str, case: &serde_json::Value) -> i32 {
 pub mod timing;
 pub mod contract;
 pub mod frag;
+pub mod faults;
+pub mod reframe;
 
 use oracle::report::{Meta, Tally};
 
